@@ -211,6 +211,16 @@ func runC20Pure(rc *RunCtx) {
 			rc.Fail("C20/merklepath-not-fold", "MerklePath(%s) = %s, fold(%d segments) = %s", ftQ(p), addr, k, ftFold(segs))
 		}
 
+		// (1b) the repository's client-side splitter (types.MerkleHelper, used by CreateMsgPostFile and the CLI path
+		// helpers): a client that splits the plain path with it and combines the two halves must land on MerklePath
+		if !hasEmpty && k >= 2 {
+			ph, chh := fttypes.MerkleHelper(p)
+			if got := fttypes.AddToMerkle(ph, chh); got != ftFold(segs) {
+				rc.Fail("C20/client-split-disagrees", "MerkleHelper(%s) = (%s, %s): combined %s, fold over %d segments = %s", ftQ(p), ph, chh, got, k, ftFold(segs))
+			}
+			rc.Eval(1)
+		}
+
 		// (2) every split point
 		for i2 := 0; i2 < k; i2++ {
 			child := segs[i2]
